@@ -68,7 +68,7 @@ static simsched::SchedConfig sc_of(const Rec &r, long nbytes, int T) {
   return c;
 }
 
-struct Outcome { int status = 0; /* 1 done, 2 hang, 0 died */ bool ret = false; Bytes out; std::string note; long steps = 0, preempt = 0; bool live_after = false; };
+struct Outcome { int status = 0; /* 1 done, 2 hang, 0 died */ bool ret = false; Bytes out; std::string note; long steps = 0, preempt = 0; bool live_after = false; uint64_t trace = 0; };
 
 static int g_pipe_w = -1;
 static void send_outcome(const Outcome &o) {
@@ -78,7 +78,8 @@ static void send_outcome(const Outcome &o) {
   m.push_back((char)o.live_after);
   uint32_t n = (uint32_t)o.out.size(), k = (uint32_t)o.note.size();
   int64_t st = o.steps, pr = o.preempt;
-  m.append((const char *)&n, 4); m.append((const char *)&k, 4); m.append((const char *)&st, 8); m.append((const char *)&pr, 8);
+  uint64_t tr = o.trace;
+  m.append((const char *)&n, 4); m.append((const char *)&k, 4); m.append((const char *)&st, 8); m.append((const char *)&pr, 8); m.append((const char *)&tr, 8);
   m.append((const char *)o.out.data(), n);
   m.append(o.note);
   size_t off = 0;
@@ -86,16 +87,16 @@ static void send_outcome(const Outcome &o) {
 }
 static bool parse_outcomes(const std::string &buf, std::vector<Outcome> &outs) {
   size_t p = 0;
-  while (p + 27 <= buf.size()) {
+  while (p + 35 <= buf.size()) {
     Outcome o;
     o.status = (unsigned char)buf[p]; o.ret = buf[p + 1] != 0; o.live_after = buf[p + 2] != 0;
-    uint32_t n, k; int64_t st, pr;
-    memcpy(&n, &buf[p + 3], 4); memcpy(&k, &buf[p + 7], 4); memcpy(&st, &buf[p + 11], 8); memcpy(&pr, &buf[p + 19], 8);
-    p += 27;
+    uint32_t n, k; int64_t st, pr; uint64_t tr;
+    memcpy(&n, &buf[p + 3], 4); memcpy(&k, &buf[p + 7], 4); memcpy(&st, &buf[p + 11], 8); memcpy(&pr, &buf[p + 19], 8); memcpy(&tr, &buf[p + 27], 8);
+    p += 35;
     if (p + n + k > buf.size()) return false;
     o.out.assign(buf.begin() + p, buf.begin() + p + n); p += n;
     o.note.assign(buf.begin() + p, buf.begin() + p + k); p += k;
-    o.steps = st; o.preempt = pr;
+    o.steps = st; o.preempt = pr; o.trace = tr;
     outs.push_back(o);
   }
   return true;
@@ -156,7 +157,7 @@ static Outcome exec_op(const Rec &r, const Bytes &encinput) {
     OpResult res = run_op(s);
     o.ret = res.ret;
     o.out = fout.data;
-    o.steps = res.sr.steps; o.preempt = res.sr.preemptions;
+    o.steps = res.sr.steps; o.preempt = res.sr.preemptions; o.trace = res.sr.trace_hash;
   } else {
     // argv level, as main.cpp / test.cpp::exec do it, on real files
     long oid = A(r, 11);
@@ -198,7 +199,7 @@ static Outcome exec_op(const Rec &r, const Bytes &encinput) {
     simsched::SchedResult sr = simsched::session_end();
     g_sim_time_on = false;
     o.ret = flag;
-    o.steps = sr.steps; o.preempt = sr.preemptions;
+    o.steps = sr.steps; o.preempt = sr.preemptions; o.trace = sr.trace_hash;
     bool ex = false;
     int outkind = (int)A(r, 6);
     if (outkind == 1) o.out = read_file(out, ex);
@@ -461,6 +462,7 @@ static Verdict run_C15(const Scn &s) {
     const Outcome &h = hist[k], &f = fresh[k];
     g_stats.add("sched.steps", h.steps);
     g_stats.add("sched.preemptions", h.preempt);
+    if (h.trace) g_stats.distinct_traces.insert(h.trace);
     if (h.live_after) g_stats.add("probe.live_buffers_after_operation", 1);
     th = fnv1a(fnv1a_u64(th, (uint64_t)h.ret * 2 + h.status), h.out.data(), h.out.size());
     if (h.status == 2) {
